@@ -117,7 +117,10 @@ class Cell(Numbered_MCNP_Object):
         for key, value in self.parameters.nodes.items():
             for input_class in PREFIX_MATCHES:
                 prefix = input_class._class_prefix()
-                if input_class in Cell._INPUTS_TO_PROPERTY and prefix in key.lower():
+                if (
+                    input_class in Cell._INPUTS_TO_PROPERTY
+                    and prefix == value["classifier"].prefix.value.lower()
+                ):
                     attr, ban_repeat = Cell._INPUTS_TO_PROPERTY[input_class]
                     key = str(value["classifier"]).lower()
                     found_class_prefixes.add(value["classifier"].prefix.value.lower())
